@@ -88,3 +88,38 @@ pub const ACME_TYPES: [&str; 24] = [
 	"unsupportedIdentifier",
 	"userActionRequired",
 ];
+
+/// class of the last request delivered (or cut) during the attempt, i.e. where it failed/ended
+pub fn last_class_in<'a>(w: &'a World, a: &Attempt<'a>) -> String {
+	let end = a.end.map(|e| e.seq).unwrap_or(u64::MAX);
+	let mut last = String::new();
+	let mut open_tx: Option<u64> = None;
+	for e in w.trace.iter() {
+		if e.seq <= a.begin.seq {
+			continue;
+		}
+		if e.seq >= end {
+			break;
+		}
+		match &e.ev {
+			Ev::NetSend { tx, .. } => open_tx = Some(*tx),
+			Ev::NetDeliver { tx, class, .. } => {
+				if Some(*tx) == open_tx || open_tx.is_none() {
+					last = class.clone();
+				}
+			}
+			_ => {}
+		}
+	}
+	last
+}
+
+/// Does the plan inject only network/CA faults (C03's scope)?
+pub fn only_net_faults(w: &World) -> bool {
+	w.plan.faults.iter().all(|f| f.site == "net") && w.plan.config.hooks.iter().all(|h| h.exits.iter().all(|c| *c == 0))
+}
+
+pub fn hook_arg<'a>(argv: &'a [String], key: &str) -> Option<&'a str> {
+	let p = format!("{}=", key);
+	argv.iter().find(|a| a.starts_with(&p)).map(|a| &a[p.len()..])
+}
